@@ -363,17 +363,11 @@ func c10u4(p *Prog, r *Reporter) {
 			}
 			mf := &MustFlow{Fn: fn, EdgeGen: func(x *ssa.BasicBlock, k int) bool {
 				atom, holds, ok := edgeCond(x, k)
-				if !ok || holds {
+				if !ok {
 					return false
 				}
-				bo, isB := atom.(*ssa.BinOp)
-				if !isB || bo.X != ssa.Value(pr) {
-					return false
-				}
-				if !((bo.Op == token.LSS && isConstInt(bo.Y, 1)) || (bo.Op == token.LEQ && isConstInt(bo.Y, 0))) {
-					return false
-				}
-				return p.panicOnly(x.Succs[1-k])
+				rel, c, ok := boundOnEdge(atom, holds, func(v ssa.Value) bool { return v == ssa.Value(pr) })
+				return ok && impliesAtLeast(rel, c, 1) && p.panicOnly(x.Succs[1-k])
 			}}
 			mf.Run()
 			r.Check(mf.Before(site.(ssa.Instruction)), name, "U4 bulk count", p.Pos(site.Pos()), "the bulk creation is dominated by `"+pr.Name()+" < 1 → panic`")
